@@ -1302,9 +1302,50 @@ def _run_local_method(I, st, call, trait, name, args):
     return I.exec_body(b, ga, args, st, call.ctx, (call.site["bb"], name))
 
 
+def _option_eq(I, st, call):
+    """Option<scalar> == Option<scalar> (e.g. `first != Some('"')`): decided per variant pair, payloads compared as numbers"""
+    if len(call.args) < 2 or not all(isinstance(x, RefV) for x in call.args[:2]):
+        return None
+    ta, tb = pointee(call.arg_tys[0]), pointee(call.arg_tys[1])
+    if not (ta and tb and ta[0] == "adt" and ta[1] == "core::option::Option" and tb[0] == "adt" and tb[1] == "core::option::Option"):
+        return None
+    va = I.ensure(st, call.args[0].place, ta, "lhs")
+    vb = I.ensure(st, call.args[1].place, tb, "rhs")
+    spa = split_variants(I, st, va, ta)
+    if spa is None:
+        return None
+    out = []
+    for s, vi, p in spa:
+        spb = split_variants(I, s, vb, tb)
+        if spb is None:
+            return None
+        for s2, vj, q in spb:
+            if vi != vj:
+                out.append((s2, boolv(False)))
+            elif vi == 0:
+                out.append((s2, boolv(True)))
+            else:
+                x = p.fields[0] if isinstance(p, StructV) and p.fields else None
+                y = q.fields[0] if isinstance(q, StructV) and q.fields else None
+                if not (isinstance(x, IntV) and isinstance(y, IntV)):
+                    return None
+                for val in (True, False):
+                    for s3 in assume(s2.copy(), ("cmp", "Eq", x.aff, y.aff), val):
+                        if not s3.dead:
+                            out.append((s3, boolv(val)))
+    return out
+
+
+@prefix_model("core::option::<impl core::cmp::PartialEq for core::option::Option<T>>::eq")
+def m_option_eq(I, st, call):
+    return _option_eq(I, st, call)
+
+
 @model("core::cmp::PartialEq::ne")
 def m_ne(I, st, call):
     rs = _run_local_method(I, st, call, "core::cmp::PartialEq", "eq", call.args)
+    if rs is None:
+        rs = _option_eq(I, st, call)
     if rs is None:
         return None
     out = []
